@@ -191,12 +191,92 @@ theorem c17_fold_reduce_concat {α : Type} (t : Shape α) :
     | cons x xs ih => intro acc; simp [ih]
   simpa using this t.items []
 
-/-- W: `parallel_stats`: the fold step lets a NaN replace the running minimum (`m < val` is
-false), the reduce step (`f64::min`) ignores a NaN — `[1, NaN]` has minimum NaN sequentially and
-1 when rayon cuts between the two. -/
-theorem c17_parallel_stats_nan_shape_witness :
-    ([some 1, none].foldl statsF Stats.init).min = some none ∧
-    (parStats (shape1 [some 1, none])).min = some (some 1) := by
+/-- W (regression, the code before commit 1e0886f): the fold step let a NaN replace the running
+minimum (`m < val` is false), the reduce step (`f64::min`) ignores a NaN — `[1, NaN]` had minimum
+NaN sequentially and 1 when rayon cut between the two. -/
+theorem Old.c17_parallel_stats_nan_shape_witness :
+    ([some 1, none].foldl Old.statsF Old.Stats.init).min = some none ∧
+    (Old.parStats (shape1 [some 1, none])).min = some (some 1) := by
+  decide
+
+theorem fbMin_assoc (t : Bool) (a b c : FB) : fbMin t a (fbMin t b c) = fbMin t (fbMin t a b) c := by
+  rcases a with _ | ⟨ak, at'⟩ <;> rcases b with _ | ⟨bk, bt⟩ <;> rcases c with _ | ⟨ck, ct⟩ <;>
+    try (simp [fbMin]; done)
+  cases t <;> simp only [fbMin] <;>
+    by_cases h1 : ak < bk <;> by_cases h2 : bk < ak <;> by_cases h3 : bk < ck <;>
+    by_cases h4 : ck < bk <;> by_cases h5 : ak < ck <;> by_cases h6 : ck < ak <;>
+    simp [h1, h2, h3, h4, h5, h6] <;> omega
+
+theorem fbMax_assoc (t : Bool) (a b c : FB) : fbMax t a (fbMax t b c) = fbMax t (fbMax t a b) c := by
+  rcases a with _ | ⟨ak, at'⟩ <;> rcases b with _ | ⟨bk, bt⟩ <;> rcases c with _ | ⟨ck, ct⟩ <;>
+    try (simp [fbMax]; done)
+  cases t <;> simp only [fbMax] <;>
+    by_cases h1 : ak > bk <;> by_cases h2 : bk > ak <;> by_cases h3 : bk > ck <;>
+    by_cases h4 : ck > bk <;> by_cases h5 : ak > ck <;> by_cases h6 : ck > ak <;>
+    simp [h1, h2, h3, h4, h5, h6] <;> omega
+
+theorem optMerge_step (g : FB → FB → FB) (hg : ∀ a b c, g a (g b c) = g (g a b) c) (am bm : Option FB) (x : FB) :
+    optMerge g am (some (match bm with | some m => g m x | none => x))
+      = some (match optMerge g am bm with | some m => g m x | none => x) := by
+  cases am <;> cases bm <;> simp [optMerge, hg]
+
+theorem fsAdd_assoc (a b c : Option Int) : fsAdd a (fsAdd b c) = fsAdd (fsAdd a b) c := by
+  cases a <;> cases b <;> cases c <;> simp [fsAdd, Int.add_assoc]
+
+/-- the repaired `parallel_stats` meets the fold laws when the fold step and the reduce step
+break `min`/`max` ties (`+0.0` vs `-0.0`) the same way -/
+theorem stats_laws (t : Bool) : FoldLaws Stats.init (statsF t) (statsM t) := by
+  refine ⟨?_, ?_, ?_⟩
+  · intro b; rcases b with ⟨c, s, mn, mx⟩
+    cases s <;> cases mn <;> cases mx <;> simp [statsM, Stats.init, fsAdd, optMerge]
+  · intro a; rcases a with ⟨c, s, mn, mx⟩
+    cases s <;> cases mn <;> cases mx <;> simp [statsM, Stats.init, fsAdd, optMerge]
+  · intro a b x
+    rcases a with ⟨ac, as, amn, amx⟩; rcases b with ⟨bc, bs, bmn, bmx⟩
+    simp only [statsM, statsF, Stats.mk.injEq]
+    exact ⟨by omega, fsAdd_assoc _ _ _, optMerge_step _ (fun a b c => fbMin_assoc t a b c) _ _ _,
+      optMerge_step _ (fun a b c => fbMax_assoc t a b c) _ _ _⟩
+
+/-- F (after 1e0886f): count, (exact) sum, min and max of `parallel_stats` are the same for EVERY
+split and merge tree — NaN inputs included (a NaN is ignored by min/max unless every input is NaN),
+and bit-for-bit including the sign of zero, provided both steps break ties alike (the pinned
+build: both return the left operand). -/
+theorem c17_parallel_stats_any_shape (t : Bool) (sh : Shape FB) :
+    parStats t t sh = sh.items.foldl (statsF t) Stats.init :=
+  c17_fold_reduce_any_shape (stats_laws t) sh
+
+theorem foldl_stats_all_nan (t : Bool) (n : Nat) (s : Stats) (h : s.min = some none ∧ s.max = some none) :
+    ((List.replicate n (none : FB)).foldl (statsF t) s).min = some none ∧
+    ((List.replicate n (none : FB)).foldl (statsF t) s).max = some none := by
+  induction n generalizing s with
+  | zero => exact h
+  | succ n ih =>
+    simp only [List.replicate_succ, List.foldl_cons]
+    apply ih
+    simp [statsF, h.1, h.2, fbMin, fbMax]
+
+/-- F: all-NaN input (non-empty): min = max = `Some(NaN)`, in every shape. -/
+theorem c17_parallel_stats_all_nan (t : Bool) (n : Nat) (sh : Shape FB)
+    (hi : sh.items = List.replicate (n + 1) none) :
+    (parStats t t sh).min = some none ∧ (parStats t t sh).max = some none := by
+  rw [c17_parallel_stats_any_shape, hi, List.replicate_succ, List.foldl_cons]
+  exact foldl_stats_all_nan t n _ (by simp [statsF, Stats.init])
+
+/-- F: a NaN never hides a number: with at least one number among the inputs the minimum of
+`[x, NaN]`, `[NaN, x]` is `x` (instances of the general theorem; the old code returned NaN for the
+first). -/
+theorem c17_parallel_stats_nan_ignored (t : Bool) (x : KV) :
+    ([some x, none].foldl (statsF t) Stats.init).min = some (some x) ∧
+    ([none, some x].foldl (statsF t) Stats.init).min = some (some x) := by
+  simp [statsF, Stats.init, fbMin]
+
+/-- W: the std documentation lets `f64::min` return either operand for `+0.0`/`-0.0`. If the two
+call sites (fold step, reduce step) were compiled to different choices, the SIGN of a zero minimum
+would depend on the split; numerically the result is the same. Not observed in the pinned build
+(both return the left operand; streamed with `nz` items). -/
+theorem c17_parallel_stats_zero_sign_witness :
+    ([some (0, 0), some (0, 1)].foldl (statsF true) Stats.init).min = some (some (0, 0)) ∧
+    (parStats true false (shape1 [some (0, 0), some (0, 1)])).min = some (some (0, 1)) := by
   decide
 
 /-- W: `fold_reduce_with` whose `init` is not neutral for the merge (100, `+`) counts `init`
@@ -398,5 +478,415 @@ theorem c17_chunk_partition_needs_last_match :
       = [[3, 4, 5]] ∧
     drainChunkPartWith findChunkIndexFirst [[1, 2], [], [], [3, 4, 5]] (cumRows 0 [[1, 2], [], [], [3, 4, 5]]) 7 5 7 2
       = ([] : List (List Nat)) := by decide
+
+/-! ## scheduler: interleavings of the atomic steps -/
+
+/-- scheduler state + ghost history -/
+structure G where
+  s : Sched
+  handed : List Nat      -- morsels returned to some worker (get_work / get_global_work / steal_work)
+  pushed : List Nat      -- morsels ever pushed into a queue (submit*, push_local)
+  counted : Nat          -- of these, how many `active_morsels.fetch_add` has accounted for
+  pendSubmit : Nat       -- pushed by the submitter, `fetch_add` not yet executed
+  pendLocal : Nat        -- pushed by `push_local`, `fetch_add` not yet executed
+  completed : Nat        -- `complete_morsel` calls
+
+def G.init (w : Nat) (wpn : Option Nat) : G := ⟨Sched.init w wpn, [], [], 0, 0, 0, 0⟩
+
+/-- one atomic step of some thread -/
+inductive Step where
+  | submitPush (m : Nat)        -- `global_queue.push` of `submit` / `submit_batch`
+  | submitCount                 -- their `fetch_add` (counts everything pushed since the last one)
+  | finishStore | finishCheck   -- the two halves of `finish_submission`
+  | popLocal (w : Nat) | getGlobal | steal (w : Nat)   -- the three sources of `get_work`
+  | pushLocalPush (w m : Nat) | pushLocalCount          -- the two halves of `push_local`
+  | complete
+  deriving DecidableEq, Repr
+
+def hand (g : G) (r : Option Nat × Sched) : G :=
+  { g with s := r.2, handed := match r.1 with | some m => m :: g.handed | none => g.handed }
+
+def G.step (g : G) : Step → G
+  | .submitPush m => { g with s := submitPush m g.s, pushed := m :: g.pushed, pendSubmit := g.pendSubmit + 1 }
+  | .submitCount => { g with s := submitCount g.pendSubmit g.s, counted := g.counted + g.pendSubmit, pendSubmit := 0 }
+  | .finishStore => { g with s := finishStore g.s }
+  | .finishCheck => { g with s := finishCheck g.s }
+  | .popLocal w => hand g (popLocal w g.s)
+  | .getGlobal => hand g (getGlobal g.s)
+  | .steal w => hand g (stealWork w g.s)
+  | .pushLocalPush w m => { g with s := pushLocalPush w m g.s, pushed := m :: g.pushed, pendLocal := g.pendLocal + 1 }
+  | .pushLocalCount => { g with s := pushLocalCount g.s, counted := g.counted + 1, pendLocal := g.pendLocal - 1 }
+  | .complete => { g with s := complete g.s, completed := g.completed + 1 }
+
+/-- the calling protocol (what the threads may do, in program order): nothing is submitted after
+`finish_submission` began; `finish_submission` starts after the last submit returned and checks
+after it stored; a worker completes only a morsel it was handed; `push_local` targets a registered
+worker; fewer than 2^64 morsels. -/
+def G.enabled (g : G) : Step → Bool
+  | .submitPush _ => !g.s.subDone && decide (g.pushed.length + 1 < M64)
+  | .finishStore => g.pendSubmit == 0
+  | .finishCheck => g.s.subDone
+  | .pushLocalPush w _ => decide (w < g.s.locals.length) && decide (g.pushed.length + 1 < M64)
+  | .pushLocalCount => decide (0 < g.pendLocal)
+  | .complete => decide (g.completed < g.handed.length)
+  | _ => true
+
+def G.run (g : G) : List Step → Option G
+  | [] => some g
+  | st :: rest => if g.enabled st then (g.step st).run rest else none
+
+def queued (s : Sched) : List Nat := s.global ++ s.locals.flatten
+
+/-- what the three "take a morsel" operations do -/
+def Took (s : Sched) (r : Option Nat × Sched) : Prop :=
+  r.2.active = s.active ∧ r.2.subDone = s.subDone ∧ r.2.done = s.done ∧
+  r.2.locals.length = s.locals.length ∧
+  match r.1 with
+  | some m => (queued s).Perm (m :: queued r.2)
+  | none => queued r.2 = queued s
+
+theorem popAt_spec (ls : List (List Nat)) (w : Nat) :
+    (popAt ls w).2.length = ls.length ∧
+    match (popAt ls w).1 with
+    | some m => ls.flatten.Perm (m :: (popAt ls w).2.flatten)
+    | none => (popAt ls w).2 = ls := by
+  induction ls generalizing w with
+  | nil => exact ⟨rfl, rfl⟩
+  | cons q qs ih =>
+    cases w with
+    | zero =>
+      cases q with
+      | nil => exact ⟨rfl, rfl⟩
+      | cons m q' => exact ⟨rfl, List.Perm.refl _⟩
+    | succ w =>
+      have h := ih w
+      simp only [popAt, List.length_cons, h.1, true_and]
+      have h2 := h.2
+      split at h2
+      · rename_i m hm
+        simp only [hm, List.flatten_cons]
+        exact (List.Perm.append_left q h2).trans List.perm_middle
+      · rename_i hm
+        simp only [hm, h2]
+
+theorem pushAt_spec (ls : List (List Nat)) (w m : Nat) (hw : w < ls.length) :
+    (pushAt ls w m).length = ls.length ∧ (pushAt ls w m).flatten.Perm (m :: ls.flatten) := by
+  induction ls generalizing w with
+  | nil => simp at hw
+  | cons q qs ih =>
+    cases w with
+    | zero =>
+      refine ⟨rfl, ?_⟩
+      simp only [pushAt, List.flatten_cons, List.append_assoc, List.singleton_append]
+      exact List.perm_middle
+    | succ w =>
+      have h := ih w (by simpa using hw)
+      refine ⟨by simp [pushAt, h.1], ?_⟩
+      simp only [pushAt, List.flatten_cons]
+      exact (List.Perm.append_left q h.2).trans List.perm_middle
+
+theorem took_popLocal (w : Nat) (s : Sched) : Took s (popLocal w s) := by
+  have h := popAt_spec s.locals w
+  refine ⟨rfl, rfl, rfl, h.1, ?_⟩
+  have h2 := h.2
+  simp only [popLocal]
+  split at h2
+  · rename_i m hm
+    simp only [hm, queued]
+    exact (List.Perm.append_left s.global h2).trans List.perm_middle
+  · rename_i hm
+    simp only [hm, queued, h2]
+
+theorem took_getGlobal (s : Sched) : Took s (getGlobal s) := by
+  unfold getGlobal
+  cases hg : s.global with
+  | nil => exact ⟨rfl, rfl, rfl, rfl, by simp [queued, hg]⟩
+  | cons m g => exact ⟨rfl, rfl, rfl, rfl, by simp [queued, hg]⟩
+
+theorem took_stealFrom (s : Sched) (vs : List Nat) : Took s (stealFrom s vs) := by
+  induction vs with
+  | nil => exact ⟨rfl, rfl, rfl, rfl, rfl⟩
+  | cons v vs ih =>
+    have h := took_popLocal v s
+    simp only [stealFrom]
+    split
+    · rename_i m s' heq
+      rw [heq] at h; exact h
+    · exact ih
+
+theorem took_stealWork (w : Nat) (s : Sched) : Took s (stealWork w s) := by
+  unfold stealWork
+  split
+  · exact ⟨rfl, rfl, rfl, rfl, rfl⟩
+  · exact took_stealFrom s _
+
+theorem complete_active (s : Sched) : (complete s).active = (s.active + (M64 - 1)) % M64 := by
+  unfold complete; split <;> rfl
+theorem complete_keeps (s : Sched) :
+    (complete s).global = s.global ∧ (complete s).locals = s.locals ∧ (complete s).subDone = s.subDone := by
+  unfold complete; split <;> exact ⟨rfl, rfl, rfl⟩
+theorem complete_done (s : Sched) :
+    (complete s).done = true ↔ (s.done = true ∨ (s.active = 1 ∧ s.subDone = true)) := by
+  unfold complete
+  by_cases h : s.active = 1 ∧ s.subDone = true
+  · rw [if_pos h]; exact ⟨fun _ => Or.inr h, fun _ => rfl⟩
+  · rw [if_neg h]; exact ⟨fun hd => Or.inl hd, fun hd => hd.elim id (fun x => absurd x h)⟩
+theorem act_add (a k c d : Nat) (h : (a : Int) = ((c : Int) - d) % 18446744073709551616) :
+    (((a + k) % M64 : Nat) : Int) = (((c + k : Nat) : Int) - d) % 18446744073709551616 := by
+  unfold M64; omega
+theorem act_sub (a c d : Nat) (h : (a : Int) = ((c : Int) - d) % 18446744073709551616) :
+    (((a + (M64 - 1)) % M64 : Nat) : Int) = ((c : Int) - ((d + 1 : Nat) : Int)) % 18446744073709551616 := by
+  unfold M64; omega
+
+/-- conservation: queues + handed-out morsels = everything ever pushed, as multisets -/
+def InvA (g : G) : Prop := (queued g.s ++ g.handed).Perm g.pushed
+
+theorem hand_invA (g : G) (r : Option Nat × Sched) (ht : Took g.s r) (h : InvA g) : InvA (hand g r) := by
+  obtain ⟨_, _, _, _, hm⟩ := ht
+  unfold InvA hand at *
+  split at hm
+  · rename_i m hr
+    simp only [hr]
+    have : (queued g.s ++ g.handed).Perm (queued r.2 ++ m :: g.handed) :=
+      ((List.Perm.append_right g.handed hm).trans (by simp)).trans List.perm_middle.symm
+    exact this.symm.trans h
+  · rename_i hr
+    simp only [hr, hm]; exact h
+
+theorem step_invA (g : G) (st : Step) (hen : g.enabled st = true) (h : InvA g) : InvA (g.step st) := by
+  cases st with
+  | submitPush m =>
+    unfold InvA at *
+    simp only [G.step, submitPush, queued, List.append_assoc]
+    have : (g.s.global ++ ([m] ++ (g.s.locals.flatten ++ g.handed))).Perm
+        (m :: (g.s.global ++ (g.s.locals.flatten ++ g.handed))) := List.perm_middle
+    exact this.trans (List.Perm.cons m (by simpa [queued, List.append_assoc] using h))
+  | submitCount => exact h
+  | finishStore => exact h
+  | finishCheck =>
+    unfold InvA at *
+    simp only [G.step, finishCheck]; split <;> exact h
+  | popLocal w => exact hand_invA g _ (took_popLocal w g.s) h
+  | getGlobal => exact hand_invA g _ (took_getGlobal g.s) h
+  | steal w => exact hand_invA g _ (took_stealWork w g.s) h
+  | pushLocalPush w m =>
+    simp only [G.enabled, Bool.and_eq_true, decide_eq_true_eq] at hen
+    have hp := (pushAt_spec g.s.locals w m hen.1).2
+    unfold InvA at *
+    simp only [G.step, pushLocalPush, queued, List.append_assoc]
+    have h1 : (g.s.global ++ ((pushAt g.s.locals w m).flatten ++ g.handed)).Perm
+        (g.s.global ++ ((m :: g.s.locals.flatten) ++ g.handed)) :=
+      List.Perm.append_left _ (List.Perm.append_right _ hp)
+    have h2 : (g.s.global ++ ((m :: g.s.locals.flatten) ++ g.handed)).Perm
+        (m :: (g.s.global ++ (g.s.locals.flatten ++ g.handed))) := List.perm_middle
+    exact (h1.trans h2).trans (List.Perm.cons m (by simpa [queued, List.append_assoc] using h))
+  | pushLocalCount => exact h
+  | complete =>
+    have k := complete_keeps g.s
+    have hq : queued (complete g.s) = queued g.s := by simp only [queued, k.1, k.2.1]
+    unfold InvA at *
+    show (queued (complete g.s) ++ g.handed).Perm g.pushed
+    rw [hq]; exact h
+
+theorem run_invA (g g' : G) (steps : List Step) (hr : g.run steps = some g') (h : InvA g) : InvA g' := by
+  induction steps generalizing g with
+  | nil => simp only [G.run, Option.some.injEq] at hr; subst hr; exact h
+  | cons st rest ih =>
+    simp only [G.run] at hr
+    split at hr
+    · rename_i hen; exact ih (g.step st) hr (step_invA g st hen h)
+    · cases hr
+
+/-- F (target 3a): under EVERY interleaving of the atomic steps of any number of workers, the
+morsels in the queues together with the morsels handed to workers are exactly the morsels pushed
+(as multisets): nothing is lost, nothing is handed out twice — if the submitted ids are distinct,
+so are the handed-out ones, and each was submitted; once the queues are empty every submitted
+morsel has been handed out. -/
+theorem c17_sched_every_morsel_handed_once (w : Nat) (wpn : Option Nat) (steps : List Step) (g : G)
+    (hr : (G.init w wpn).run steps = some g) :
+    (queued g.s ++ g.handed).Perm g.pushed ∧
+    (g.pushed.Nodup → g.handed.Nodup ∧ ∀ m ∈ g.handed, m ∈ g.pushed) ∧
+    (queued g.s = [] → g.handed.Perm g.pushed) := by
+  have h : InvA g := run_invA _ g steps hr (by simp [InvA, G.init, Sched.init, queued])
+  refine ⟨h, ?_, ?_⟩
+  · intro hn
+    have hn' : (queued g.s ++ g.handed).Nodup := h.nodup_iff.mpr hn
+    exact ⟨(List.nodup_append.mp hn').2.1, fun m hm => h.subset (List.mem_append_right _ hm)⟩
+  · intro hq
+    have h' := h
+    unfold InvA at h'
+    simpa [hq] using h'
+
+/-- no `push_local` in the trace -/
+def noLocal : List Step → Bool
+  | [] => true
+  | .pushLocalPush _ _ :: _ => false
+  | .pushLocalCount :: _ => false
+  | _ :: rest => noLocal rest
+
+/-- counters: `active` is `counted − completed` modulo 2^64 (a `complete_morsel` may overtake the
+`fetch_add` of its morsel: the counter wraps and comes back) -/
+structure InvB (g : G) : Prop where
+  perm : InvA g
+  act : (g.s.active : Int) = ((g.counted : Int) - (g.completed : Int)) % 18446744073709551616
+  cnt : g.counted + g.pendSubmit = g.pushed.length
+  bound : g.pushed.length < 18446744073709551616
+  comp : g.completed ≤ g.handed.length
+  fin : g.s.subDone = true → g.pendSubmit = 0
+  done : g.s.done = true → g.s.subDone = true ∧ g.completed = g.pushed.length
+
+theorem invA_len (g : G) (h : InvA g) : (queued g.s).length + g.handed.length = g.pushed.length := by
+  have := h.length_eq; simpa using this
+
+theorem hand_invB (g : G) (r : Option Nat × Sched) (ht : Took g.s r) (h : InvB g) : InvB (hand g r) := by
+  have hA := hand_invA g r ht h.perm
+  obtain ⟨h1, h2, h3, _, _⟩ := ht
+  refine ⟨hA, ?_, h.cnt, h.bound, ?_, ?_, ?_⟩
+  · simp only [hand, h1]; exact h.act
+  · have hc := h.comp
+    simp only [hand]; split
+    · simp only [List.length_cons]; omega
+    · exact hc
+  · simp only [hand, h2]; exact h.fin
+  · simp only [hand, h2, h3]; exact h.done
+
+theorem step_invB (g : G) (st : Step) (hen : g.enabled st = true) (hl : noLocal [st] = true) (h : InvB g) :
+    InvB (g.step st) := by
+  have hlen := invA_len g h.perm
+  have hA := step_invA g st hen h.perm
+  have hact := h.act; have hcnt := h.cnt; have hb := h.bound; have hc := h.comp
+  cases st with
+  | submitPush m =>
+    simp only [G.enabled, Bool.and_eq_true] at hen
+    have he2 : g.pushed.length + 1 < M64 := of_decide_eq_true hen.2
+    unfold M64 at he2
+    have he1 : g.s.subDone = false := by
+      cases hsd : g.s.subDone with
+      | false => rfl
+      | true => rw [hsd] at hen; exact absurd hen.1 (by decide)
+    refine ⟨hA, ?_, ?_, ?_, hc, ?_, ?_⟩
+    · exact hact
+    · show g.counted + (g.pendSubmit + 1) = (m :: g.pushed).length
+      simp only [List.length_cons]; omega
+    · show (m :: g.pushed).length < 18446744073709551616
+      simp only [List.length_cons]; omega
+    · intro hs
+      have hs' : g.s.subDone = true := hs
+      rw [he1] at hs'; cases hs'
+    · intro hd
+      have hd' : g.s.done = true := hd
+      have := (h.done hd').1
+      rw [he1] at this; cases this
+  | submitCount =>
+    refine ⟨hA, ?_, ?_, hb, hc, fun _ => rfl, ?_⟩
+    · exact act_add _ _ _ _ hact
+    · simp [G.step]; omega
+    · intro hd
+      have hd' : g.s.done = true := by simpa [G.step, submitCount] using hd
+      exact ⟨by simpa [G.step, submitCount] using (h.done hd').1, (h.done hd').2⟩
+  | finishStore =>
+    simp only [G.enabled, beq_iff_eq] at hen
+    refine ⟨hA, by simpa [G.step, finishStore] using hact, hcnt, hb, hc, fun _ => hen, ?_⟩
+    intro hd
+    have hd' : g.s.done = true := by simpa [G.step, finishStore] using hd
+    exact ⟨by simp [G.step, finishStore], (h.done hd').2⟩
+  | finishCheck =>
+    simp only [G.enabled] at hen
+    have hp := h.fin hen
+    by_cases h0 : g.s.active = 0
+    · refine ⟨hA, ?_, hcnt, hb, hc, ?_, ?_⟩
+      · simpa [G.step, finishCheck, h0] using hact
+      · intro _; exact hp
+      · intro _
+        refine ⟨by simp [G.step, finishCheck, h0, hen], ?_⟩
+        simp only [G.step]
+        rw [h0] at hact; omega
+    · refine ⟨hA, ?_, hcnt, hb, hc, ?_, ?_⟩
+      · simpa [G.step, finishCheck, h0] using hact
+      · intro _; exact hp
+      · intro hd
+        have hd' : g.s.done = true := by simpa [G.step, finishCheck, h0] using hd
+        have := h.done hd'
+        exact ⟨by simp [G.step, finishCheck, h0, this.1], this.2⟩
+  | popLocal w => exact hand_invB g _ (took_popLocal w g.s) h
+  | getGlobal => exact hand_invB g _ (took_getGlobal g.s) h
+  | steal w => exact hand_invB g _ (took_stealWork w g.s) h
+  | pushLocalPush w m => simp [noLocal] at hl
+  | pushLocalCount => simp [noLocal] at hl
+  | complete =>
+    simp only [G.enabled, decide_eq_true_eq] at hen
+    have k := complete_keeps g.s
+    refine ⟨hA, ?_, hcnt, hb, ?_, ?_, ?_⟩
+    · show ((complete g.s).active : Int)
+        = ((g.counted : Int) - ((g.completed + 1 : Nat) : Int)) % 18446744073709551616
+      rw [complete_active]; exact act_sub _ _ _ hact
+    · show g.completed + 1 ≤ g.handed.length
+      omega
+    · intro hs
+      exact h.fin (by rw [← k.2.2]; exact hs)
+    · intro hd
+      show (complete g.s).subDone = true ∧ g.completed + 1 = g.pushed.length
+      rw [k.2.2]
+      rcases (complete_done g.s).mp hd with hd' | ⟨ha, hs⟩
+      · have := h.done hd'
+        exfalso; omega
+      · have hp := h.fin hs
+        refine ⟨hs, ?_⟩
+        rw [ha] at hact; omega
+
+theorem run_invB (g g' : G) (steps : List Step) (hr : g.run steps = some g') (hl : noLocal steps = true)
+    (h : InvB g) : InvB g' := by
+  induction steps generalizing g with
+  | nil => simp only [G.run, Option.some.injEq] at hr; subst hr; exact h
+  | cons st rest ih =>
+    simp only [G.run] at hr
+    split at hr
+    · rename_i hen
+      have h1 : noLocal [st] = true := by cases st <;> simp_all [noLocal]
+      have h2 : noLocal rest = true := by cases st <;> simp_all [noLocal]
+      exact ih (g.step st) hr h2 (step_invB g st hen h1 h)
+    · cases hr
+
+/-- F (target 3b): for every interleaving of submit / finish_submission / get_work (local, global,
+steal) / complete_morsel that follows the protocol: `is_done()` ⇒ submission finished, every
+submitted morsel has been handed out and every handed-out morsel completed — never earlier. -/
+theorem c17_sched_done_not_premature (w : Nat) (wpn : Option Nat) (steps : List Step) (g : G)
+    (hr : (G.init w wpn).run steps = some g) (hl : noLocal steps = true) (hd : g.s.done = true) :
+    g.s.subDone = true ∧ g.pendSubmit = 0 ∧ queued g.s = [] ∧ g.handed.Perm g.pushed ∧
+      g.completed = g.handed.length := by
+  have h : InvB g := run_invB _ g steps hr hl
+    ⟨by simp [InvA, G.init, Sched.init, queued], by simp [G.init, Sched.init], by simp [G.init],
+     by simp [G.init], by simp [G.init], by simp [G.init, Sched.init], by simp [G.init, Sched.init]⟩
+  have hdone := h.done hd
+  have hlen := invA_len g h.perm
+  have hc := h.comp
+  have hq : queued g.s = [] := List.eq_nil_of_length_eq_zero (by omega)
+  refine ⟨hdone.1, h.fin hdone.1, hq, ?_, by omega⟩
+  have := h.perm; unfold InvA at this; simpa [hq] using this
+
+/-- W (defect): `push_local` pushes the morsel BEFORE it counts it. A thief can steal and complete
+it inside that window; `complete_morsel` then sees `prev == 1` (the pusher's own morsel) and sets
+`done` while the pusher is still working on a handed-out morsel: 2 handed, 1 completed, done. -/
+theorem c17_sched_push_local_premature_done_witness :
+    ((G.init 2 none).run [.submitPush 0, .submitCount, .finishStore, .finishCheck, .getGlobal,
+        .pushLocalPush 0 7, .steal 1, .complete]).map
+      (fun g => (g.s.done, g.handed.length, g.completed, g.pendLocal)) = some (true, 2, 1, 1) := by
+  decide
+
+/-- W (repair): counting before pushing closes the window — the same schedule with the two halves
+of `push_local` swapped leaves `done` false until the last morsel completes. -/
+theorem c17_sched_push_local_count_first :
+    ((G.init 2 none).run [.submitPush 0, .submitCount, .finishStore, .finishCheck, .getGlobal,
+        .pushLocalPush 0 7, .pushLocalCount, .steal 1, .complete]).map
+      (fun g => (g.s.done, g.handed.length, g.completed)) = some (false, 2, 1) := by
+  decide
+
+/-- W (caller error, not a defect): a `submit` after `finish_submission` found the scheduler idle
+leaves `done` stuck at true with a morsel queued (the protocol step `submitPush` is disabled
+there; shown on the method-level functions the stream drives: `par sched 2 d f;s0;g0;c0`). -/
+theorem c17_sched_submit_after_finish_witness :
+    (submit 0 (finishSubmission (Sched.init 2 none))).done = true ∧
+    (submit 0 (finishSubmission (Sched.init 2 none))).global = [0] := by
+  decide
 
 end Grafeo.Par
